@@ -654,7 +654,9 @@ func cmdCheck(args []string) int {
 		}
 	}
 	wall := time.Since(start).Seconds()
-	writeEvidence(id, p, tier, seed, merged, nW, nS, nSt, nP, b, wall, nviol, kn)
+	if os.Getenv("VERIF_NOEVIDENCE") == "" {
+		writeEvidence(id, p, tier, seed, merged, nW, nS, nSt, nP, b, wall, nviol, kn)
+	}
 	fmt.Printf("verif: %s %s: runs=%d executions=%d nontrivial=%d distinct(workloads=%d interleavings=%d states=%d nontrivial-pairs=%d) violations=%d wall=%.1fs\n",
 		id, tier, merged.Runs, merged.Evals, merged.NonTrivial, nW, nS, nSt, nP, nviol, wall)
 	if merged.Runs == 0 {
